@@ -765,7 +765,36 @@ CHECK_DEADLOCK FALSE
     ctx.random_validate("data", 16 if q else 160, 60)
 
 
+def c13(ctx):
+    """Untrusted input and randomness failure.  The specification supplies the scenario space (every
+    conversation state reached by the exported schedules x every input class: tampered fields, cuts,
+    huge length/count prefixes, garbage, authenticated-but-malicious SMP payloads; the index k of the
+    failing read) and the 'remains usable' oracle (after the failing call the rest of the run, a fresh
+    handshake and a text each way, is validated against OTR.tla); panic, wall time and allocation are
+    monitored per call by the driver and evaluated by the trace specification; the parser entry points
+    are enumerated in child processes."""
+    q = ctx.quick()
+    ctx.model("c13-model", dict(DATA33, NetMode="bag", MaxSend=2, MaxFlight=2, MaxDup=1, MaxDrop=1), ["NoSecretsAtRest"])
+    for name in (("queryA",) if q else ("queryA", "both", "both-v2", "tag", "req")):
+        pol, prelude = STARTS[name]
+        c = dict(pol, Prelude=prelude, MaxSend=0, MaxFlight=4)
+        ctx.export_tamper_validate("c13-ake-" + name, c, "none", per_msg=40 if q else 0, allpos=not q, maxsched=4 if q else 20)
+    ctx.export_tamper_validate("c13-data", dict(DATA33, MaxSend=2, MaxFlight=2, MaxTick=1), "none", per_msg=16 if q else 0,
+                               allpos=not q, maxsched=40 if q else 200)
+    ctx.export_tamper_validate("c13-data-v2", dict(PolA=1, PolB=1, Setup="ake", MaxSend=1, MaxFlight=2), "none", per_msg=16 if q else 0,
+                               allpos=not q, maxsched=20 if q else 100)
+    ctx.export_tamper_validate("c13-life", dict(PolA=7, PolB=3, MaxSend=1, MaxFlight=3, MaxQuery=1, MaxEnd=1), "none",
+                               per_msg=8 if q else 30, maxsched=40 if q else 300)
+    ctx.random_validate("smpdev", 32 if q else 480, 3 if q else 6)
+    ctx.random_validate("randfail", 160 if q else 1600, 90)
+    st = go_check(ctx, ["parsefuzz", "-seed", str(ctx.seed)] + ([] if q else ["-deep"]), "PARSEFUZZ", "FUZZVIOLATION",
+                  "a parser entry point panicked, hung or allocated out of proportion")
+    ctx.events += st.get("inputs", 0)
+    ctx.extra_cov["parser_inputs"] = st.get("inputs", 0)
+
+
 TABLE = {
+    "C13": c13,
     "C17": c17,
     "C10": c10,
     "C08": c08,
